@@ -147,6 +147,26 @@ class SchedPool:
                 yielded.add(i)
                 yield fut
 
+    def wait(self, fs, timeout=None, return_when=None):
+        """concurrent.futures.wait for dispatchers that submit incrementally and drain with wait(): one future
+        completes per call - the pending one that the schedule collects first, run on the worker the schedule
+        gave it (ALL_COMPLETED: all of them, in that order)."""
+        fs = set(fs)
+        order = {f: n for n, (ev, _w, f) in enumerate(self.sched) if ev == "collect"}
+        worker_of = {f: w for ev, w, f in self.sched if ev == "take"}
+        done = {x for x in fs if getattr(x, "_collected", False)}
+        pend = sorted(fs - done, key=lambda x: (order.get(x.idx + 1, 10 ** 6), x.idx))
+        for fut in (pend if return_when == "ALL_COMPLETED" else pend[:1]):
+            if not fut.done():
+                w = worker_of.get(fut.idx + 1, 1)
+                if w not in self.workers:
+                    self._spawn(w)
+                self.workers[w][1].send((fut.fn, fut.args))
+                fut.set(*self.workers[w][1].recv())
+            fut._collected = True
+            done.add(fut)
+        return done, fs - done
+
     def shutdown(self):
         for w, (pid, conn) in list(self.workers.items()):
             try:
